@@ -303,11 +303,14 @@ def changeResolutionFrom (dev : Dev) (allocFail : Bool) (c : Ctx) (w h : Nat) : 
     let (c, d) := c.allocOk pages
     let (c, ok) := c.nodata dev (.attach RESOURCE_ID_FB d.region size)
     if !ok then (c.dealloc d).finish (.err .ioError) else
-    let (c, ok) := c.nodata dev (.setScanout 0 0 w h SCANOUT_ID RESOURCE_ID_FB)
-    if !ok then (c.dealloc d).finish (.err .ioError) else
+    -- the device refers to the buffer from here on: it is stored in `self` before anything else can
+    -- fail (fix 1ac4978; before it, a failing SET_SCANOUT released the attached buffer)
+    let c := { c with st := { c.st with fb := some d } }
     -- `raw_slice()` → `vaddr(0)` asserts `0 < pages * PAGE_SIZE`
-    if pages = 0 then (c.dealloc d).finish .panic else
-    ({ c with st := { c.st with fb := some d } }).finish (.ok (.fbLen (pages * PAGE)))
+    if pages = 0 then c.finish .panic else
+    let (c, ok) := c.nodata dev (.setScanout 0 0 w h SCANOUT_ID RESOURCE_ID_FB)
+    if !ok then c.finish (.err .ioError) else
+    c.finish (.ok (.fbLen (pages * PAGE)))
 
 def changeResolution (dev : Dev) (allocFail : Bool) (s : St) (w h : Nat) : Out :=
   changeResolutionFrom dev allocFail { st := s } w h
@@ -340,14 +343,16 @@ def setupCursor (dev : Dev) (allocFail : Bool) (s : St) (imgLen posX posY hotX h
   if !ok then (c.dealloc d).finish (.err .ioError) else
   let (c, ok) := c.nodata dev (.attach RESOURCE_ID_CURSOR d.region size)
   if !ok then (c.dealloc d).finish (.err .ioError) else
-  let (c, ok) := c.nodata dev (.transfer 0 0 CURSOR_W CURSOR_H 0 RESOURCE_ID_CURSOR)
-  if !ok then (c.dealloc d).finish (.err .ioError) else
-  let c := c.cursorReq (.cursor false SCANOUT_ID posX posY RESOURCE_ID_CURSOR hotX hotY)
-  -- `self.cursor_buffer_dma = Some(..)` drops a previous cursor buffer
+  -- stored as soon as it is attached (fix 1ac4978); `self.cursor_buffer_dma = Some(..)` drops a
+  -- previous cursor buffer, whose place as the resource's backing the new one has just taken
   let c := match c.st.cursor with
     | none => c
     | some old => c.dealloc old
-  ({ c with st := { c.st with cursor := some d } }).finish (.ok .unit)
+  let c := { c with st := { c.st with cursor := some d } }
+  let (c, ok) := c.nodata dev (.transfer 0 0 CURSOR_W CURSOR_H 0 RESOURCE_ID_CURSOR)
+  if !ok then c.finish (.err .ioError) else
+  let c := c.cursorReq (.cursor false SCANOUT_ID posX posY RESOURCE_ID_CURSOR hotX hotY)
+  c.finish (.ok .unit)
 
 /-- `move_cursor` -/
 def moveCursor (s : St) (posX posY : Nat) : Out :=
